@@ -523,7 +523,10 @@ pub(crate) fn load_defs(ctx: &mut Context, defs: Defs) -> Vec<String> {
                         unique.insert(&*prop.name);
                         unique.insert(&*prop.input_name);
                         unique.insert(&*prop.output_name);
-                        let unit = (&input / &output).expect("Non-zero property").unit;
+                        let ratio = (&input / &output).ok_or_else(|| {
+                            format!("Output of property {} must not be zero", prop.name)
+                        })?;
+                        let unit = ratio.unit.clone();
                         let existing = prev.entry(unit).or_insert_with(BTreeSet::new);
                         for conflict in existing.intersection(&unique) {
                             errors.push(format!(
@@ -533,10 +536,7 @@ pub(crate) fn load_defs(ctx: &mut Context, defs: Defs) -> Vec<String> {
                             ));
                         }
                         existing.append(&mut unique);
-                        ctx.temporaries.insert(
-                            prop.name.clone(),
-                            (&input / &output).expect("Non-zero property"),
-                        );
+                        ctx.temporaries.insert(prop.name.clone(), ratio);
                         if output == Number::one() {
                             ctx.temporaries
                                 .insert(prop.input_name.clone(), input.clone());
